@@ -909,3 +909,46 @@ func (x *gen) directedCQReports() {
 	c.exec("unblock")
 	c.exec("flush 6")
 }
+
+// directedJointCampaign: five voters enter a joint configuration that removes two of them (so two
+// voters belong to the outgoing half only), and while it is joint other nodes campaign: the vote
+// requests go to the union of both halves, in a fixed order.
+func (x *gen) directedJointCampaign() {
+	c := x.c
+	l := x.leader()
+	if l == nil || len(c.alive()) < 5 {
+		x.idle()
+		return
+	}
+	c.exec("flush 4")
+	if !l.alive || l.rn == nil || !x.isLeader(l) {
+		return
+	}
+	cs := x.mostAdvancedConf()
+	if len(cs.VotersOutgoing) > 0 || len(cs.Voters) < 5 {
+		x.idle()
+		return
+	}
+	var rest []uint64
+	for _, id := range cs.Voters {
+		if id != l.id {
+			rest = append(rest, id)
+		}
+	}
+	x.g.Shuffle(len(rest), func(i, j int) { rest[i], rest[j] = rest[j], rest[i] })
+	a, b := rest[0], rest[1]
+	c.exec(fmt.Sprintf("proposecc %d v2:explicit:r%d,r%d", l.id, a, b))
+	c.exec("flush 8")
+	for round := 0; round < 2 && !c.stopped; round++ {
+		cand := c.nodes[rest[2+round%2]]
+		if cand == nil || !cand.alive || cand.rn == nil {
+			continue
+		}
+		x.elect(cand)
+		c.exec("flush 4")
+	}
+	if nl := x.leader(); nl != nil {
+		c.exec(fmt.Sprintf("proposecc %d leave", nl.id))
+	}
+	c.exec("flush 8")
+}
